@@ -29,7 +29,7 @@ VOCAB = {
     "current_interactive", "eval_cost", "g_proceeding_shutdown", "slow_shutdown_to_do", "nb", "timeout", "user_command",
     "ip", "heart_beat_flag",
     # members
-    "iflags", "last_time", "ob", "message_length", "tv_sec",
+    "iflags", "last_time", "ob", "message_length", "tv_sec", "text_start", "text_end", "text",
 }
 
 
@@ -99,6 +99,12 @@ def find_all(n, kind, acc=None):
     return acc
 
 
+def order(stmts):
+    """statements that mention at least one scheduler name, rendered; statements about other things (and plain
+    declarations / returns) are left out, so that unrelated additions do not change the list"""
+    return [render(s) for s in stmts if names_in(s)]
+
+
 def lean_list(name, doc, items):
     return "/-- %s -/\ndef %s : List String :=\n  [%s]" % (doc, name, ",\n   ".join('"%s"' % i for i in items))
 
@@ -116,7 +122,7 @@ def generate(bdir):
     if lbody is None:
         raise TieBroken("ast:backend loop", "the backend loop has no compound body")
     out.append(lean_list("backendOrder", "C (backend): the statements of one iteration of the `while (1)` loop, in order",
-                         [render(s) for s in kids(lbody)]))
+                         order(kids(lbody))))
     # error recovery: setjmp in front of the loop (top level), none inside it
     sj_top = [i for i, s in enumerate(top) if {"_setjmp", "setjmp"} & names_in(s)]
     li = top.index(loop)
@@ -133,14 +139,20 @@ def generate(bdir):
     # ---- get_user_command(): top-level order and the order inside the scan loop
     fg = ast_function(bdir, "src/comm.c", "get_user_command")
     gtop = kids(body_of(fg))
-    out.append(lean_list("gucOrder", "C (get_user_command): top-level statements, in order", [render(s) for s in gtop]))
+    out.append(lean_list("gucOrder", "C (get_user_command): top-level statements, in order", order(gtop)))
     scans = [s for s in gtop if s.get("kind") == "ForStmt" and "first_cmd_in_buf" in names_in(s)]
     if len(scans) != 1 or body_of(scans[0]) is None:
         raise TieBroken("ast:scan loop", "expected one top-level for loop calling first_cmd_in_buf() in get_user_command()")
     out.append(lean_list("gucScanOrder", "C (get_user_command): statements of the scan loop body, in order",
-                         [render(s) for s in kids(body_of(scans[0]))]))
+                         order(kids(body_of(scans[0])))))
     # ---- process_user_command(): top-level order (get_user_command first, the single `return 0` last)
     fp = ast_function(bdir, "src/comm.c", "process_user_command")
     out.append(lean_list("pucOrder", "C (process_user_command): top-level statements, in order",
-                         [render(s) for s in kids(body_of(fp))]))
+                         order(kids(body_of(fp)))))
+    # ---- the three buffer scanners the scheduler relies on (C13 owns the bytes; here: which statements touch
+    #      text_start / text_end / iflags, in which order)
+    for fn in ("first_cmd_in_buf", "cmd_in_buf", "next_cmd_in_buf"):
+        f = ast_function(bdir, "src/comm.c", fn)
+        out.append(lean_list(fn.replace("_", " ").title().replace(" ", "")[0].lower() + fn.replace("_", " ").title().replace(" ", "")[1:] + "Order",
+                             "C (%s): top-level statements that touch the text buffer, in order" % fn, order(kids(body_of(f)))))
     return "\n".join(out)
